@@ -250,7 +250,7 @@ def explore_case(modname, case, limits):
             if j >= n0:
                 t, k = ctx.decisions[j]
                 stack.append(ctx.decisions[:j] + [(not t, k)])
-        if len(res['errors']) > 5:
+        if len(res['errors']) > 2:
             break
     res['exhausted'] = not stack and not res['errors']
     res['flags'] = sorted(flags)
